@@ -267,7 +267,8 @@ func runC16(c *Ctx) {
 			return "ok", nil
 		}, Describe: func(idx []int) any { return corpus[idx[0]].Name }}
 	// word slices: lengths x word patterns x copy mode; copy=false words live in PROT_READ memory
-	lens := []int{0, 1, 2, 64, 65, 1023, 1024, 1025, 2047, 2048, 2049, 3072}
+	lens := []int{0, 1, 2, 64, 65, 100, 1023, 1024, 1025, 1124, 2047, 2048, 2049, 2148, 3072}
+	slacks := []int{0, 3, 1500} // spare capacity behind the caller's word slice (the slice is carved out of a larger buffer)
 	pats := []string{"zero", "ones", "sparse", "dense-first-chunk", "alternate", "last-word-only", "4096-exactly", "4097"}
 	mkWords := func(n int, pat string) []uint64 {
 		w := make([]uint64, n)
@@ -307,10 +308,10 @@ func runC16(c *Ctx) {
 		}
 		return w
 	}
-	p4 := &explore.Product{Name: "FromDense word slices x copy mode (no-copy words are read-only memory) x mutation sweep", Dims: []int{len(lens), len(pats), 2}, Deadline: c.Budget(110, 1600), Execs: &wexecs,
+	p4 := &explore.Product{Name: "FromDense word slices x copy mode (no-copy words are read-only memory) x mutation sweep", Dims: []int{len(lens), len(pats), 2, len(slacks)}, Deadline: c.Budget(110, 1600), Execs: &wexecs,
 		Run: func(idx []int) (string, *ev.Fail) {
 			debug.SetPanicOnFault(true)
-			n, pat, cp := lens[idx[0]], pats[idx[1]], idx[2] == 0
+			n, pat, cp, slack := lens[idx[0]], pats[idx[1]], idx[2] == 0, slacks[idx[3]]
 			words := mkWords(n, pat)
 			m := model.New32()
 			for i, w := range words {
@@ -320,14 +321,21 @@ func runC16(c *Ctx) {
 					}
 				}
 			}
-			g := env.NewGuarded(8*n, true)
+			// the caller's slice is arena[:n] with cap n+slack; the spare words carry a sentinel and, like the
+			// words themselves, are read-only: padding the slice in place (append) faults
+			g := env.NewGuarded(8*(n+slack), true)
 			defer g.Free()
-			copy(g.Words(), words)
+			arena := g.Words()
+			copy(arena, words)
+			for i := n; i < n+slack; i++ {
+				arena[i] = 0xDEADBEEFCAFEF00D
+			}
 			g.ReadOnly(true)
+			callerWords := arena[:n]
 			ops := sweepOps(m)
 			ops = append([]op32{{Name: "(none)", F: func(w *W32) (string, *ev.Fail) { return "", nil }}}, ops...)
 			for _, op := range ops {
-				r := roaring.FromDense(g.Words(), cp)
+				r := roaring.FromDense(callerWords, cp)
 				w := &W32{B: r, M: m.Clone()}
 				if _, f := op.F(w); f != nil {
 					return "", f
@@ -350,15 +358,18 @@ func runC16(c *Ctx) {
 					return "", fail("ToDense", "size", "%s: ToDense has %d words, DenseSize()=%d", name, len(d), w.B.DenseSize())
 				}
 			}
-			for i, w := range g.Words() {
-				if w != words[i] {
+			for i, w := range arena {
+				if i < n && w != words[i] {
 					return "", fail("FromDense", "caller-words-written", "the caller's words changed at %d", i)
+				}
+				if i >= n && w != 0xDEADBEEFCAFEF00D {
+					return "", fail("FromDense", "caller-spare-capacity-written", "the memory behind the caller's slice (spare capacity) changed at word %d", i)
 				}
 			}
 			return pat, nil
 		},
 		Describe: func(idx []int) any {
-			return map[string]any{"len": lens[idx[0]], "pattern": pats[idx[1]], "copy": idx[2] == 0}
+			return map[string]any{"len": lens[idx[0]], "pattern": pats[idx[1]], "copy": idx[2] == 0, "spare_capacity_words": slacks[idx[3]]}
 		}}
 	c.R.Assume("a write into caller-owned words is detected as a fault: the words are mapped PROT_READ between guard pages")
 	runScenarios(c, p1, p2, p3, p4)
